@@ -50,8 +50,27 @@ class Leafs:
             return chr(self.x.values[nm])
         c = self.x.zint(nm, 0, 0x10FFFF)
         self.x.assume(z3.Or(c < 0xD800, c > 0xDFFF))
-        self.x.assume(z3.And(c != ord(quote), c != ord("\\"), c != ord(";")))
+        self.x.assume(c != ord(";"))
         return c
+
+    def strchars(self, quote, n):
+        """the characters of a string literal's value and, per character, whether it is the literal's own
+        delimiter (written escaped).  A backslash denotes itself unless it precedes the delimiter; to keep the
+        text unambiguous a backslash in the value is never last and never followed by the delimiter or another
+        backslash."""
+        chars = [self.strchar(quote) for _ in range(n)]
+        flags = []
+        for i, c in enumerate(chars):
+            if self.x.sym:
+                nxt = chars[i + 1] if i + 1 < n else None
+                if nxt is None:
+                    self.x.assume(c != 92)
+                else:
+                    self.x.assume(z3.Implies(c == 92, z3.And(nxt != ord(quote), nxt != 92)))
+                flags.append(C.truth(c == ord(quote)))
+            else:
+                flags.append(c == quote)
+        return chars, flags
 
     def ws(self):
         nm = self.name("ws")
@@ -104,7 +123,8 @@ def instantiate(node, lf):
         quote = node[1]
         if quote is None:
             quote = ['"', "'"][lf.x.choice(lf.name("qt"), 2)]
-        return ("str", quote, [lf.strchar(quote) for _ in range(node[2])])
+        chars, flags = lf.strchars(quote, node[2])
+        return ("str", quote, chars, flags)
     if k == "list":
         return ("list", [instantiate(n, lf) for n in node[1]])
     if k == "dict":
@@ -162,7 +182,10 @@ class Printer:
         if k == "int":
             self.out += node[1]
         elif k == "str":
-            self.out += [node[1]] + node[2] + [node[1]]
+            self.out.append(node[1])
+            for c, esc in zip(node[2], node[3]):
+                self.out += ["\\", node[1]] if esc else [c]
+            self.out.append(node[1])
         elif k == "lit":
             self.lit(node[1])
         elif k == "var":
@@ -346,7 +369,15 @@ def show(v):
 
 
 # ------------------------------------------------------------------ harness
-def h_program(x, shapes, ws):
+REJECTED_FIRST = [
+    "RETURN = " + "[" * 150 + "1,," + "]" * 150 + ";",  # malformed, deep inside nested lists
+    "RETURN = " + "{'a':" * 150 + "nosuch(1)" + "}" * 150 + ";",  # unknown function, deep inside nested dicts
+    "RETURN = " + "nop(" * 150 + "'x" + ")" * 150 + ";",  # unterminated string, deep inside nested calls
+    "x = 1; y = x; RETURN = limit_events(y, 'one');",  # type error after assignments
+]
+
+
+def h_program(x, shapes, ws, after_rejected=0):
     """shapes: list of program templates; one is chosen by forking.  ws: 'none' | 'single' (a single
     space in every separator slot) | 'sym1' / 'sym2' (1 / 2 arbitrary whitespace characters in one
     separator slot chosen by forking)"""
@@ -372,6 +403,13 @@ def h_program(x, shapes, ws):
     ds = c17.make_datastore()
     ds_ref = c17.make_datastore()
     want = ref_program(stmts, ds_ref)
+    for _ in range(after_rejected):
+        # queries rejected earlier in the same process must leave no trace in the evaluation of this one
+        for bad in REJECTED_FIRST:
+            try:
+                Q2.query("earlier", bad, T0, T1, ds)
+            except QueryException:
+                pass
     try:
         got = Q2.query("name", text, T0, T1, ds)
         outcome = "value"
@@ -555,6 +593,8 @@ def harnesses(tier):
                 continue
             hs.append((Harness(PROP, "%s-ws-%s" % (fname, ws), h_program, dict(shapes=shapes, ws=ws),
                                "%d program shapes (%s) with symbolic leaves; separator whitespace mode %s" % (len(shapes), fname, ws), split_depth=7), 1800))
+    hs.append((Harness(PROP, "literals-after-rejected-queries", h_program, dict(shapes=LITERALS, ws="none", after_rejected=3), "%d literal shapes evaluated after 3 rounds of %d rejected queries (errors 150 levels deep in lists, dicts and calls; a type error after assignments) in the same process" % (len(LITERALS), len(REJECTED_FIRST)), split_depth=7), 1800))
+    hs.append((Harness(PROP, "variables-after-rejected-queries", h_program, dict(shapes=VARIABLES, ws="none", after_rejected=3), "%d variable shapes evaluated after 3 rounds of rejected queries in the same process" % len(VARIABLES), split_depth=7), 1800))
     return hs
 
 
@@ -564,14 +604,14 @@ def meta(chk, tier):
                                          "aw_query.functions: q2_function / q2_typecheck wrappers and all registered q2_* built-ins"]))
     chk.bounds = [
         "program shapes: %d literal, %d variable, %d call/nesting, %d built-in shapes (<=3 statements, nesting depth <=3, 0-3 arguments), enumerated by hand from the grammar" % (len(LITERALS), len(VARIABLES), len(CALLS), len(BUILTINS)),
-        "leaves symbolic: every digit of integer literals (0-9), every character of string literals (any Unicode code point except the enclosing quote, backslash and ';'), 0-2 characters per literal",
+        "leaves symbolic: every digit of integer literals (0-9), every character of string literals (any Unicode code point except ';' — the literal's own delimiter included, written escaped; a backslash anywhere but last / before the delimiter / before another backslash), 0-2 characters per literal",
         "separator whitespace: none / one space in every slot around , : = ; / one or two arbitrary Unicode whitespace characters in one slot (every slot tried)",
         "dict keys concrete and distinct; datastore: memory backend, two buckets with 3 and 2 concrete events",
     ]
     chk.stubs = c17_stubs()
     chk.assumptions = [
         "reference evaluator is independent of aw_query.functions: own table of 22 built-ins calling aw_transform / Bucket methods directly on deep copies of the evaluated arguments",
-        "strings containing ';' or a backslash are outside the property's quantifier",
+        "strings containing ';' are outside the property's quantifier; a backslash denotes itself unless it precedes the literal's own delimiter (the only escape of the language)",
         "programs that re-read a variable after passing it to an in-place transform are not generated (the property does not speak about purity of built-ins)",
         "generated shapes: every built-in with each argument position in turn replaced by a nested call, a variable or a literal with symbolic leaves",
         "program shapes beyond the listed ones are outside the claim",
